@@ -1,6 +1,7 @@
 """C13 BIP-340 verification accepts exactly what the BIP-340 algorithm accepts."""
 import os
 from .common import Check, load_prog, load_globals, new_machine, tm, X, MOD, sym_bytes, cat_bytes, P_FIELD, N_ORDER, cat_limbs
+from .schnorr_common import snapshot, unchanged
 from . import stubs, toy as T, models
 from .c07 import TOYS_QUICK, TOYS_THOROUGH
 from .schnorr_common import BTC, W, tagged, int16_of, spec_verify, spec_lift_x
@@ -19,6 +20,8 @@ def main():
         include_dependency(chk, tasks, 'C04', '', 'BIP-340 verification computes -e*P with the variable-time GLV multiply (toy layer: contract)')
         include_dependency(chk, tasks, 'C05', 'table lookup basemult', 'BIP-340 verification computes s*G with scalarBaseMultVartime (toy layer: contract)')
         include_dependency(chk, tasks, 'C16', 'dsm', 'BIP-340 verification calls DoubleScalarMultBasepointVartime (toy layer: contract)')
+    from .common import include_ring_dependency
+    include_ring_dependency(chk, tasks, 'C01', 'field', ['field_sqrt'], 'lift_x solves y^2 = x^3 + 7 with Element.Sqrt (contract: root iff square, zero otherwise); the real code is re-decided here')
     chk.run_tasks(tasks)
     chk.discharge()
     chk.finish()
@@ -114,8 +117,12 @@ def build(chk, only=''):
                 msg = sym_bytes('m', ML)
                 r16, s16 = tm.var('r16', W), tm.var('s16', W)
                 sig = (T.be32(r16) + T.be32(s16) + sym_bytes('extra', max(0, SL - 64)))[:SL]
-                res = m.call(SPK + 'Verify', [pub, m.new_byte_slice(msg, 'msg'), m.new_byte_slice(sig, 'sig')])
+                msl, ssl = m.new_byte_slice(msg, 'msg'), m.new_byte_slice(sig, 'sig')
+                snap = snapshot(m, [pub, msl, ssl])
+                res = m.call(SPK + 'Verify', [pub, msl, ssl])
                 sub.note_machine(m)
+                # verification is a read-only use of the key (and of the caller's buffers): a key that verified once verifies the same way again
+                ctx.check(unchanged(m, snap), 'bv:key-object-and-caller-buffers-unchanged-by-verification')
                 spec = spec_verify(toy, pk16, msg, r16, s16) if SL == 64 else False
                 ctx.check(tm.eq(res, spec, 0), 'bv:Verify-accepts-iff-BIP340-Verify')
                 # a result the code left symbolic (e.g. `return a == 0 && bytes.Equal(..)`) is split so that the witness below is semantic
